@@ -112,7 +112,11 @@ class Flow:
                 out.add(("const", v if not isinstance(v, list) else str(v)))
 
         def push_place(p):
+            base_ty = self.facts.ty(self.body["locals"][p["l"]]["t"])
+            checked = base_ty.endswith(", bool)") and base_ty.count(",") == 1  # (T, bool) of checked arithmetic
             for of, f in place_fields(p):
+                if checked and of == "tuple":
+                    continue
                 out.add(("field", of, f))
             for e in p.get("pr", []):
                 if isinstance(e, dict) and "idx" in e:
